@@ -63,14 +63,9 @@ class OWElement(MemoryElement):
         if mem.id == self.id:
             if addr == 0:
                 if self._parse_and_check_header(data[0:8]):
-                    if self._parse_and_check_elements(data[9:11]):
-                        self.valid = True
-                        self._update_finished_cb(self)
-                        self._update_finished_cb = None
-                    else:
-                        # We need to fetch the elements, find out the length
-                        (elem_ver, elem_len) = struct.unpack('BB', data[8:10])
-                        self.mem_handler.read(self, 8, elem_len + 3)
+                    # We need to fetch the elements, find out the length
+                    (elem_ver, elem_len) = struct.unpack('BB', data[8:10])
+                    self.mem_handler.read(self, 8, elem_len + 3)
                 else:
                     # Call the update if the CRC check of the header fails,
                     # we're done here
